@@ -183,36 +183,33 @@ pub async fn ssl_request(stream: &mut TcpStream) -> Result<(), Error> {
 /// Parse the params the server sends as a key/value format.
 pub fn parse_params(mut bytes: BytesMut) -> Result<HashMap<String, String>, Error> {
     let mut result = HashMap::new();
-    let mut buf = Vec::new();
-    let mut tmp = String::new();
+
+    // Null-terminated C-strings: name, value, name, value, ...; the list ends with an
+    // empty name. A value may be empty, and both are UTF-8.
+    fn read_cstring(bytes: &mut BytesMut) -> Result<String, Error> {
+        match bytes.iter().position(|&byte| byte == 0) {
+            Some(end) => {
+                let string = bytes.split_to(end + 1);
+                Ok(String::from_utf8_lossy(&string[..end]).to_string())
+            }
+            None => Err(Error::ClientBadStartup),
+        }
+    }
 
     while bytes.has_remaining() {
-        let mut c = bytes.get_u8();
+        let name = read_cstring(&mut bytes)?;
 
-        // Null-terminated C-strings.
-        while c != 0 {
-            tmp.push(c as char);
-            c = bytes.get_u8();
+        if name.is_empty() {
+            break;
         }
 
-        if !tmp.is_empty() {
-            buf.push(tmp.clone());
-            tmp.clear();
-        }
-    }
-
-    // Expect pairs of name and value
-    // and at least one pair to be present.
-    if buf.len() % 2 != 0 || buf.len() < 2 {
-        return Err(Error::ClientBadStartup);
-    }
-
-    let mut i = 0;
-    while i < buf.len() {
-        let name = buf[i].clone();
-        let value = buf[i + 1].clone();
+        let value = read_cstring(&mut bytes)?;
         let _ = result.insert(name, value);
-        i += 2;
+    }
+
+    // At least one pair has to be present.
+    if result.is_empty() {
+        return Err(Error::ClientBadStartup);
     }
 
     Ok(result)
